@@ -922,6 +922,28 @@ def hierarchical(rec, part):
     run_family(rec, 'hierarchical%d' % part, configs, ops, inv,
                [q + c + '.' + f for c in ('HierarchicalLogLikelihood', 'HierarchicalLogPosterior') for f in ('__init__', 'n_parameters', 'get_parameter_names', 'get_id', 'evaluateS1', '__call__')],
                HPRED, HSTRUCT)
+    if part == 0:
+        def reuse():
+            # likelihoods without IDs are labelled by position, in place: a likelihood that was labelled by an earlier hierarchical likelihood
+            # (or by the user) may carry exactly the label that another one gets by position -- the constructor either rejects the list
+            # (ValueError) or the IDs identify the individuals one-to-one
+            scen = 0
+            for build in (lambda: (lambda a, b, d: (real.HierarchicalLogLikelihood([a, b], real.GaussianModel(n_dim=3)), [b, d])[1])(make_ll(real, 2, ('GaussianErrorModel',)), make_ll(real, 2, ('GaussianErrorModel',)), make_ll(real, 2, ('GaussianErrorModel',))),
+                          lambda: [make_ll(real, 2, ('GaussianErrorModel',), label='Log-likelihood 2'), make_ll(real, 2, ('GaussianErrorModel',))],
+                          lambda: [make_ll(real, 2, ('GaussianErrorModel',)), make_ll(real, 2, ('GaussianErrorModel',), label='Log-likelihood 1'), make_ll(real, 2, ('GaussianErrorModel',))]):
+                scen += 1
+                lls = build()
+                try:
+                    h = real.HierarchicalLogLikelihood(lls, real.GaussianModel(n_dim=3))
+                except ValueError:
+                    continue
+                ids = [l_.get_id() for l_ in lls]
+                full = h.get_parameter_names(include_ids=True)
+                if len(set(ids)) != len(ids) or len(set(full)) != len(full):
+                    return ('refuted', 'execution of the real constructor (native)', 'scenario %d: the individuals carry the IDs %s; names prefixed by their ID are not distinct: %s | native: executed on the installed chi' % (scen, ids, list(full)),
+                            {'scenario': scen, 'expected': 'distinct IDs or ValueError', 'observed': ids, 'what': 'two individuals share the ID %s' % [i_ for i_ in ids if ids.count(i_) > 1][:1]})
+            return ('discharged', 'execution of the real constructor on 3 re-use scenarios', 'rejected or labelled one-to-one')
+        rec.run('hierarchical0/inv.unique@reused-likelihoods', [q + 'HierarchicalLogLikelihood._label_log_likelihoods', q + 'HierarchicalLogLikelihood.get_id'], 'B', reuse)
 
 
 def filter_posteriors(rec):
